@@ -96,6 +96,51 @@ Proof. unfold inplace_merge_range, sub, vlen. rewrite !Nat2Z.id, app_length. cbn
   replace (Z.to_nat (Z.of_nat (length l + length s) - Z.of_nat (length l))) with (length s) by lia.
   rewrite fa, sa, firstn_all. rewrite skipn_all2 by (rewrite app_length; lia). rewrite app_nil_r. reflexivity. Qed.
 
-Theorem insert_range_tv cmp l vs : insert_range_gen cmp l vs = SetModel.fs_bulk cmp l vs.
-Proof. unfold insert_range_gen, SetModel.fs_bulk, vec_append. cbv zeta. rewrite erase_duplicates_tv. f_equal.
+(* no exception (thr = None): the regenerated insert(first, last) is the bulk insertion of the set model *)
+Theorem insert_range_tv cmp l vs : insert_range_gen cmp l vs None = inl (SetModel.fs_bulk cmp l vs).
+Proof. unfold insert_range_gen, SetModel.fs_bulk, vec_append. cbv zeta. rewrite erase_duplicates_tv. f_equal. f_equal.
   rewrite sort_tail. apply merge_halves. Qed.
+
+(* ---- exceptions: whatever the vector is left with (any l'), the handler makes it the ordered sequence of a set again ---- *)
+Lemma sub_all l : sub l 0 (vlen l) = l.
+Proof. unfold sub, vlen. rewrite Z.sub_0_r, Nat2Z.id. cbn [Z.to_nat skipn]. apply firstn_all. Qed.
+Lemma adj_find_cons2 p a b t : adj_find p (a :: b :: t) = if p a b then O else S (adj_find p (b :: t)).
+Proof. reflexivity. Qed.
+Lemma adj_find_none p l : adj_find p l = length l -> Sorted.Sorted (fun a b => p a b = false) l.
+Proof.
+  induction l as [|a [|b t] IH]; intros H.
+  - constructor.
+  - constructor; constructor.
+  - rewrite adj_find_cons2 in H. destruct (p a b) eqn:E; [cbn [length] in H; lia|].
+    constructor; [apply IH; cbn [length] in *; lia|constructor; exact E].
+Qed.
+Definition is_set_sequence (cmp : Z -> Z -> bool) (l : list Z) : Prop := Sorted.Sorted (fun a b => cmp a b = true) l.
+Theorem restore_invariants_is_set cmp l : is_set_sequence cmp (restore_invariants_gen cmp l).
+Proof.
+  unfold restore_invariants_gen, is_set_sequence. cbv zeta. unfold adjacent_find_z. rewrite sub_all. cbn [Z.add].
+  unfold vlen. rewrite eqb_nat.
+  destruct (Nat.eqb_spec (adj_find (fun lhs rhs => negb (cmp lhs rhs)) l) (length l)) as [E|E]; cbn [negb].
+  - pose proof (adj_find_none _ _ E) as S. clear E. induction S as [|a t S IH Hd]; constructor; [exact IH|].
+    destruct Hd as [|b t' Hb]; constructor. destruct (cmp a b); [reflexivity|discriminate].
+  - constructor.
+Qed.
+Theorem restore_invariants_keeps_or_clears cmp l : restore_invariants_gen cmp l = l \/ restore_invariants_gen cmp l = [].
+Proof. unfold restore_invariants_gen. cbv zeta. destruct (negb _); [right|left]; reflexivity. Qed.
+(* with a transitive comparator the adjacent order is the order between any two positions (Hint.sorted) *)
+Theorem restore_invariants_sorted cmp l : (forall x y z, cmp x y = true -> cmp y z = true -> cmp x z = true) ->
+  Hint.sorted cmp (restore_invariants_gen cmp l).
+Proof. intros T. apply Sorted.Sorted_StronglySorted; [intros x y z; apply T|apply restore_invariants_is_set]. Qed.
+(* a sequence which already is one is kept *)
+Lemma adj_find_sorted cmp l : Sorted.Sorted (fun a b => cmp a b = true) l -> adj_find (fun a b => negb (cmp a b)) l = length l.
+Proof. induction 1 as [|a t S IH Hd]; [reflexivity|]. destruct Hd as [|b t' Hb]; [reflexivity|].
+  rewrite adj_find_cons2, Hb. cbn [negb]. rewrite IH. reflexivity. Qed.
+Theorem restore_invariants_keeps_sets cmp l : is_set_sequence cmp l -> restore_invariants_gen cmp l = l.
+Proof. intros S. unfold restore_invariants_gen. cbv zeta. unfold adjacent_find_z. rewrite sub_all. cbn [Z.add]. unfold vlen.
+  rewrite eqb_nat, (adj_find_sorted _ _ S), Nat.eqb_refl. reflexivity. Qed.
+(* insert(first, last) and copy assignment that exit by an exception *)
+Theorem insert_range_thrown cmp l vs l' : insert_range_gen cmp l vs (Some l') = inr (restore_invariants_gen cmp l').
+Proof. reflexivity. Qed.
+Theorem copy_assign_tv cmp l ol self : copy_assign_gen cmp l ol self None = inl (if self then l else ol).
+Proof. unfold copy_assign_gen. destruct self; reflexivity. Qed.
+Theorem copy_assign_thrown cmp l ol l' : copy_assign_gen cmp l ol false (Some l') = inr (restore_invariants_gen cmp l').
+Proof. reflexivity. Qed.
